@@ -296,6 +296,7 @@ type boxKernel struct {
 	Crashes  int
 	Steps    int
 	Fatal    bool
+	Booting    bool // true while the initial adds of a (re)started instance are delivered
 	Generation int // instance generation (incremented at every boot)
 	StickyNum, StickyDen int // probability of continuing the worker that just parked
 	lastRec  string
@@ -305,6 +306,11 @@ type boxKernel struct {
 	Events    []string
 	// ListOrderRand drives the order of List results.
 	listRand *vfRand
+	// OnCrash is called at the crash instant, before the new instance boots.
+	OnCrash func()
+	// PointLabels records the label of every crash point (dry runs use it to pick crash indices).
+	RecordLabels bool
+	PointLabels  []string
 	// hook for the harness to observe every List (kind -> objects as returned)
 	OnList func(rec string, kind string, items []client.Object)
 }
@@ -340,6 +346,8 @@ func (k *boxKernel) Start() {
 }
 
 func (k *boxKernel) boot() {
+	k.Booting = true
+	defer func() { k.Booting = false }()
 	k.recs = map[string]*boxRec{}
 	k.order = nil
 	k.Generation++
@@ -360,6 +368,9 @@ func (k *boxKernel) Yield(rec, label string) {
 		return // not under the scheduler (direct call from a monitor)
 	}
 	k.Points++
+	if k.RecordLabels {
+		k.PointLabels = append(k.PointLabels, rec+":"+label)
+	}
 	if k.CrashAt != 0 && k.Points == k.CrashAt {
 		k.crashReq = true
 		k.c.Logf("   crash requested at point %d (%s yield %s)", k.Points, rec, label)
@@ -375,6 +386,9 @@ func (k *boxKernel) Yield(rec, label string) {
 // CrashPoint is a crash opportunity where the goroutine cannot be parked (inside a handler).
 func (k *boxKernel) CrashPoint(label string) {
 	k.Points++
+	if k.RecordLabels {
+		k.PointLabels = append(k.PointLabels, label)
+	}
 	if k.CrashAt != 0 && k.Points == k.CrashAt {
 		k.crashReq = true
 		k.c.Logf("   crash at point %d (%s)", k.Points, label)
@@ -444,6 +458,9 @@ func (k *boxKernel) wait() {
 func (k *boxKernel) doCrash() {
 	k.crashReq = false
 	k.Crashes++
+	if k.OnCrash != nil {
+		k.OnCrash()
+	}
 	for _, n := range k.order {
 		r := k.recs[n]
 		if r.state == 2 {
@@ -525,6 +542,9 @@ func (k *boxKernel) Step(allowInject bool) bool {
 		k.Events = append(k.Events, ev.Kind)
 		k.c.Logf("EVENT %s: %s", ev.Kind, desc)
 		k.Points++
+		if k.RecordLabels {
+			k.PointLabels = append(k.PointLabels, "after-event")
+		}
 		if k.CrashAt != 0 && k.Points == k.CrashAt {
 			k.c.Logf("   crash at point %d (after event)", k.Points)
 			k.doCrash()
